@@ -12,7 +12,7 @@ def expected(kind, key, args):
         return ("val", ("gate", key))
     if kind == "big":
         return ("val", ("big", key, args[0]))
-    if kind == "slow_arg":
+    if kind in ("slow_arg", "big_arg"):
         return ("val", (key, "ident"))
     if kind == "leak":
         return ("val", (key, "leak"))
